@@ -15,6 +15,7 @@ MUT = {
  "concat-drops-right": ("  else VArr (arr_elems es1 p1 ++ arr_elems es2 p2) [].", "  else VArr (arr_elems es1 p1 ++ es2) []."),
  "concat-always-lazy": ("  else if pend_eqb p1 p2 then VArr (es1 ++ es2) p1", "  else if true then VArr (es1 ++ es2) p1"),
  "concat-ignores-polarity": ("  else if pend_eqb p1 p2 then VArr (es1 ++ es2) p1", "  else if pend_eqb_nolabel p1 p2 then VArr (es1 ++ es2) p1"),
+ "recenv-constants-raw": ("  match v with VRec fs => Ok (close_rec fs) | _ => Err e end.", "  match v with VRec fs => Ok (close_rec_constraw fs) | _ => Err e end."),
  "values-ignore-pending": ("  VArr (map fld_thunk (sort_fields fs)) [].\n\nDefinition prim_record_values_broken", "  VArr (map (fun f => fst (snd f)) (sort_fields fs)) [].\n\nDefinition prim_record_values_broken"),
  "access-drops-pending": ("  | Some (x, p) => Ok (tctrs p x)\n  | None => Err EFieldMissing", "  | Some (x, p) => Ok x\n  | None => Err EFieldMissing"),
  "recordmap-drops-pending": ("VRec (map (fun fl => (fst fl, (f (fst fl) (fld_thunk fl), []))) fs).", "VRec (map (fun fl => (fst fl, (f (fst fl) (fst (snd fl)), []))) fs)."),
@@ -59,7 +60,7 @@ def main():
     names = sys.argv[1:] or list(MUT)
     good = core.ocaml_build('c08', 'C08.v', 'driver.ml')[2]
     rng = core.SplitMix64(1 * 1000003 + 8)
-    cases = [c08.gen_case(rng.fork()) for _ in range(1500)]
+    cases = [c08.gen_case(rng.fork()) for _ in range(1500)] + [c08.gen_recrec_case(rng.fork()) for _ in range(400)] + [c08.gen_stack_case(rng.fork()) for _ in range(300)]
     for name in names:
         exe = build(name, *MUT[name])
         ck = core.Check('C08', 'quick', 1)
